@@ -452,7 +452,8 @@ SPEC = Property(
     rule=("format in {bool,uint8..uint64,int,float} x (min,max,step) none/partial/full (negative minima to -2^31, fractional steps, "
           "maxima to 2^64-1) x input as int, float, numeric string (plain, signed, padded, exponent) or garbage (text, None, bytes, "
           "NaN/inf); through Service.build_update and check_convert_value. Non-trivial: input clamped by the range, or off the step "
-          "grid, or magnitude > 1e6, or garbage. Distinct by canonical JSON of (format, min, max, step, input)."),
+          "grid, or magnitude > 1e6, or garbage. Distinct by canonical JSON of (format, min, max, step, input). Metadata reaches the model by constructor "
+          "keywords, later assignment, JSON, or a HAP-BLE signature read by the tree's own GATT database fetch; one case in six converts on a fresh thread."),
     layers=[
         Layer("grid", run_case, enumerate=enum_grid, exhaustive=True,
               space="5 integer formats x 5 steps x 4 minima x 2 maxima x 39 inputs; 8 float range/step shapes x 1220 inputs; 29 garbage inputs x 6 formats", min_nontrivial=1000),
